@@ -278,6 +278,21 @@ func init() {
 					}
 				}
 			}
+			// control-flow joins followed by fusable instructions, in multi-slot consumers
+			var joinIn, pbIn []run.TV
+			for _, v := range gen.JoinInputs() {
+				joinIn = append(joinIn, run.TV{V: v})
+			}
+			for _, v := range gen.PathBindInputs() {
+				pbIn = append(pbIn, run.TV{V: v})
+			}
+			for _, src := range gen.JoinPrograms(c.N(12, 1)) {
+				kC04.Do(c, c04Case{Src: src, Inputs: joinIn})
+			}
+			// value operands in the middle of path expressions (expbegin/expend bracketing)
+			for _, src := range gen.PathBindPrograms() {
+				kC04.Do(c, c04Case{Src: src, Inputs: pbIn})
+			}
 			n := c.N(9000, 200000)
 			for i := 0; i < n; i++ {
 				g := &gen.G1{R: r, Lits: 4, Updates: 1}
